@@ -4,7 +4,7 @@
   `lower_sem`  : the shape denotes the same language as the expression (uses `rangeShape_iff`, Lemmas/ReAlgebra.lean).
   `seg_of_emit`: the bytes of the emit model decode to that shape.
 -/
-import YaraModel.Lemmas.ReIrSound
+import YaraModel.Lemmas.ReDir
 namespace YaraModel.ReEmit
 open YaraModel.Re YaraModel.ReVm
 
